@@ -16,7 +16,7 @@ from mtsa.index import FunctionInfo, Repo, dotted, norm
 from mtsa.report import AnalysisError
 from . import codec_model as CM
 from .codec_model import ANY, NONE_T, alias, cls, gen, py_repr, type_repr
-from .common import RepoInterp
+from .common import origin_token, RepoInterp
 from .sig_model import EMPTY
 
 ST = "monkeytype.stubs"
@@ -78,13 +78,13 @@ class AnnoScenario:
             if attr == "__args__":
                 return obj.fields["args"]
             if attr == "__origin__":
-                return S("origin:" + obj.fields["origin"].v)
+                return origin_token(obj.fields["origin"].v)
             if attr in ("__qualname__", "__name__", "__supertype__", "__forward_arg__"):
                 st.pending = st.pending or "AttributeError"
                 return U("no " + attr)
         if isinstance(obj, R) and obj.kind == "alias":
             if attr == "__origin__":
-                return S("origin:" + obj.fields["name"].v)
+                return origin_token(obj.fields["name"].v)
             if attr in ("__args__", "__qualname__", "__name__", "__supertype__", "__forward_arg__"):
                 st.pending = st.pending or "AttributeError"
                 return U("no " + attr)
